@@ -88,12 +88,22 @@ class Gen:
             w = rng.choice(ids)
             return w, [w], {}
         if r < 0.35 and allow_2d and geo.idrows * geo.cols > 1:
-            r0 = rng.randrange(geo.idrows)
-            r1 = rng.randint(r0 + 1, min(geo.idrows, r0 + 4))
-            c0 = rng.randrange(geo.cols)
-            c1 = rng.randint(c0 + 1, min(geo.cols, c0 + 3))
-            arr = [[well_id(rr, cc) for cc in range(c0, c1)] for rr in range(r0, r1)]
-            flat = [arr[rr][cc] for cc in range(c1 - c0) for rr in range(r1 - r0)]
+            if rng.random() < 0.25 and geo.idrows * geo.cols <= 96:
+                # the whole labware (`plate.wells`, possibly reversed: `plate.wells[::-1, :]`)
+                r0, r1, c0, c1 = 0, geo.idrows, 0, geo.cols
+            else:
+                r0 = rng.randrange(geo.idrows)
+                r1 = rng.randint(r0 + 1, min(geo.idrows, r0 + 4))
+                c0 = rng.randrange(geo.cols)
+                c1 = rng.randint(c0 + 1, min(geo.cols, c0 + 3))
+            rows, cols = list(range(r0, r1)), list(range(c0, c1))
+            o = rng.random()
+            if o < 0.15 or 0.30 <= o < 0.36:
+                rows.reverse()  # a slice with a negative step is still a 2-D slice of `wells`
+            if 0.15 <= o < 0.36:
+                cols.reverse()
+            arr = [[well_id(rr, cc) for cc in cols] for rr in rows]
+            flat = [arr[i][j] for j in range(len(cols)) for i in range(len(rows))]
             return arr, flat, {}
         if r < 0.45:
             # one whole column, ascending rows (the typical call)
